@@ -1,15 +1,183 @@
 package main
 
-// Replay of counterexamples against the real code (go test -overlay, nothing is written into the repository).
+// Replay of counterexamples against the real code (go test -overlay; nothing is written into the repository).
 
 import (
+	"bytes"
+	"encoding/json"
 	"fmt"
+	"os"
+	"os/exec"
+	"path/filepath"
+	"regexp"
+	"sort"
+	"strings"
+	"time"
 )
 
-// tryReplay attempts to reproduce a failed obligation on the real code. It returns whether the failure was
-// reproduced and a description of what was done.
+type replayPlan struct {
+	template string // file under /verif/replay_templates
+	pkgDir   string // package directory (relative to the repository root) the test is injected into
+	test     string
+	env      map[string]string
+	why      string
+}
+
+// modelVal finds the model value of the first variable whose name starts with one of the prefixes.
+func modelVal(m map[string]string, prefixes ...string) (uint64, bool) {
+	var keys []string
+	for k := range m {
+		keys = append(keys, k)
+	}
+	sort.Strings(keys)
+	for _, p := range prefixes {
+		for _, k := range keys {
+			if strings.HasPrefix(k, p) {
+				if v, ok := modelUint(m[k]); ok {
+					return v, true
+				}
+			}
+		}
+	}
+	return 0, false
+}
+
+func lastNonZero(m map[string]string, prefix string) (uint64, bool) {
+	var keys []string
+	for k := range m {
+		if strings.HasPrefix(k, prefix) {
+			keys = append(keys, k)
+		}
+	}
+	sort.Strings(keys)
+	var best uint64
+	found := false
+	for _, k := range keys {
+		if v, ok := modelUint(m[k]); ok && v != 0 {
+			best, found = v, true
+		}
+	}
+	return best, found
+}
+
+var replayFamilies []func(o *oblResult) *replayPlan
+
+func init() {
+	i64 := func(v uint64) string { return fmt.Sprintf("%d", int64(v)) }
+	replayFamilies = append(replayFamilies, func(o *oblResult) *replayPlan {
+		mk := func(kind string, now, d uint64) *replayPlan {
+			return &replayPlan{template: "deadline_test.go.tmpl", pkgDir: ".", test: "TestGovcReplay_Deadline",
+				env: map[string]string{"GOVC_KIND": kind, "GOVC_NOW": i64(now), "GOVC_DUR": i64(d)}, why: "deadline scenario '" + kind + "' with the model's clock value and duration"}
+		}
+		now, _ := modelVal(o.Model, "arg_nowNano")
+		switch {
+		case strings.Contains(o.Func, "setExpiresAfterRead") || strings.Contains(o.Func, "calcExpiresAtAfterRead"):
+			d, ok := modelVal(o.Model, "arg_expiresAfter")
+			if !ok {
+				d, ok = lastNonZero(o.Model, "cbres_ExpireAfterRead")
+			}
+			if ok {
+				return mk("read", now, d)
+			}
+		case strings.Contains(o.Func, "calcExpiresAtAfterWrite"):
+			d, ok := lastNonZero(o.Model, "cbres_ExpireAfterCreate")
+			if !ok {
+				d, ok = lastNonZero(o.Model, "cbres_ExpireAfterUpdate")
+			}
+			if ok {
+				return mk("write", now, d)
+			}
+		case strings.Contains(o.Func, "calcRefreshableAt"):
+			if strings.Contains(o.Tag, "hook") || strings.Contains(o.Tag, "keep") {
+				return mk("refresh-hook-on-expired", 0, 0)
+			}
+			for _, p := range []string{"cbres_RefreshAfterCreate", "cbres_RefreshAfterUpdate", "cbres_RefreshAfterReload"} {
+				if d, ok := lastNonZero(o.Model, p); ok {
+					if int64(d) > 0 && int64(now)+int64(d) < 0 {
+						return mk("refresh", now, d)
+					}
+				}
+			}
+			return mk("refresh-hook-on-expired", 0, 0)
+		case strings.HasSuffix(o.Func, ".SetExpiresAfter") && strings.Contains(o.Tag, "C12"):
+			now, _ = modelVal(o.Model, "G_now!", "ret_Clock")
+			if d, ok := modelVal(o.Model, "arg_expiresAfter"); ok {
+				return mk("override", now, d)
+			}
+		case strings.HasSuffix(o.Func, ".SetRefreshableAfter") && strings.Contains(o.Tag, "C12"):
+			now, _ = modelVal(o.Model, "G_now!", "ret_Clock")
+			if d, ok := modelVal(o.Model, "arg_refreshableAfter"); ok {
+				return mk("refresh-override", now, d)
+			}
+		case o.Func == "Entry.HasExpired":
+			a, _ := modelVal(o.Model, "arg_e.ExpiresAtNano")
+			b, _ := modelVal(o.Model, "arg_e.SnapshotAtNano")
+			return mk("entry", a, b)
+		}
+		return nil
+	})
+}
+
+// tryReplay attempts to reproduce a failed obligation on the real code.
 func tryReplay(w *world, prop string, o *oblResult, rec map[string]any) (bool, map[string]any) {
-	return false, map[string]any{"attempted": false, "reason": "no replay generator for this obligation family"}
+	for _, fam := range replayFamilies {
+		plan := fam(o)
+		if plan == nil {
+			continue
+		}
+		ok, out, cmdline := runReplay(w.repo, w.verifDir, plan)
+		detail := map[string]any{"attempted": true, "template": plan.template, "env": plan.env, "test": plan.test, "package_dir": plan.pkgDir,
+			"what": plan.why, "reproduced": ok, "command": cmdline, "output": out}
+		return ok, detail
+	}
+	return false, map[string]any{"attempted": false, "reason": "no replay template for this obligation family; the solver model is recorded above"}
+}
+
+var reReproduced = regexp.MustCompile(`(?m)^REPLAY-REPRODUCED: (.*)$`)
+
+func runReplay(repo, verifDir string, plan *replayPlan) (bool, string, string) {
+	tmp, err := os.MkdirTemp("/var/tmp", "govc-replay-")
+	if err != nil {
+		return false, err.Error(), ""
+	}
+	defer os.RemoveAll(tmp)
+	src, err := os.ReadFile(filepath.Join(verifDir, "replay_templates", plan.template))
+	if err != nil {
+		return false, err.Error(), ""
+	}
+	testFile := filepath.Join(tmp, "zz_govc_replay_test.go")
+	_ = os.WriteFile(testFile, src, 0o644)
+	ov, _ := json.Marshal(map[string]any{"Replace": map[string]string{filepath.Join(repo, plan.pkgDir, "zz_govc_replay_test.go"): testFile}})
+	ovPath := filepath.Join(tmp, "ov.json")
+	_ = os.WriteFile(ovPath, ov, 0o644)
+	args := []string{"test", "-overlay", ovPath, "-vet=off", "-count=1", "-timeout", "60s", "-run", "^" + plan.test + "$", "."}
+	cmd := exec.Command("go", args...)
+	cmd.Dir = filepath.Join(repo, plan.pkgDir)
+	cmd.Env = append(os.Environ(), "GOFLAGS=-mod=mod", "GOPROXY=off")
+	var envs []string
+	for k, v := range plan.env {
+		cmd.Env = append(cmd.Env, k+"="+v)
+		envs = append(envs, k+"="+v)
+	}
+	sort.Strings(envs)
+	var out bytes.Buffer
+	cmd.Stdout, cmd.Stderr = &out, &out
+	done := make(chan error, 1)
+	go func() { done <- cmd.Run() }()
+	select {
+	case <-done:
+	case <-time.After(120 * time.Second):
+		_ = cmd.Process.Kill()
+	}
+	text := out.String()
+	if len(text) > 1500 {
+		text = text[:1500]
+	}
+	cmdline := strings.Join(envs, " ") + " go " + strings.Join(args, " ") + "  (in " + cmd.Dir + ", overlay injects replay_templates/" + plan.template + ")"
+	if m := reReproduced.FindStringSubmatch(text); m != nil {
+		return true, m[0], cmdline
+	}
+	return false, text, cmdline
 }
 
 func replayCmd(args []string, repo, verifDir string) int {
@@ -17,6 +185,35 @@ func replayCmd(args []string, repo, verifDir string) int {
 		fmt.Println("usage: govc replay <replay.json>")
 		return 2
 	}
-	fmt.Println("replay file:", args[0])
+	b, err := os.ReadFile(args[0])
+	if err != nil {
+		fmt.Println(err)
+		return 2
+	}
+	var rec map[string]any
+	if err := json.Unmarshal(b, &rec); err != nil {
+		fmt.Println(err)
+		return 2
+	}
+	fmt.Printf("obligation: %v\nfunction:   %v [%v]\nstatus:     %v\n", rec["obligation"], rec["function"], rec["mode"], rec["status"])
+	rp, _ := rec["replay"].(map[string]any)
+	if rp == nil || rp["attempted"] != true {
+		fmt.Println("no executable replay recorded for this obligation (model / solver output are in the file)")
+		return 0
+	}
+	plan := &replayPlan{template: fmt.Sprint(rp["template"]), pkgDir: fmt.Sprint(rp["package_dir"]), test: fmt.Sprint(rp["test"]), env: map[string]string{}}
+	if e, ok := rp["env"].(map[string]any); ok {
+		for k, v := range e {
+			plan.env[k] = fmt.Sprint(v)
+		}
+	}
+	ok, out, cmdline := runReplay(repo, verifDir, plan)
+	fmt.Println("command:", cmdline)
+	fmt.Println(out)
+	if ok {
+		fmt.Println("reproduced on", repo)
+		return 1
+	}
+	fmt.Println("not reproduced on", repo)
 	return 0
 }
